@@ -18,7 +18,7 @@ Hypothesis Hwake : forall j s bi, bi_now bi < MAX_ET ->
 
 (* the link between the slot store, the key set and the scheduling entries, at cycle boundaries *)
 Definition Link (n : nstate S) : Prop :=
-  Good (n_sch n) /\ s_done (n_sch n) = true /\
+  Good (n_sch n) /\
   (forall j s, n_slot n j = Some s -> In j keys /\ exists e, n_store n s = Some e /\ se_key e = j /\ se_started e = true) /\
   (forall s e, n_store n s = Some e -> se_started e = true -> n_slot n (se_key e) = Some s) /\
   (forall s e, n_store n s = Some e -> se_started e = true ->
@@ -82,7 +82,7 @@ Proof. destruct Hok as [_ [H _]]. unfold MAX_ET in H. lia. Qed.
 (* ---- key / slot bookkeeping ---- *)
 Lemma live_slot_unique j j' s : n_slot n j = Some s -> n_slot n j' = Some s -> j = j'.
 Proof.
-  destruct HL as [_ [_ [L1 _]]]. intros H1 H2.
+  destruct HL as [_ [L1 _]]. intros H1 H2.
   destruct (L1 j s H1) as [_ [e [E1 [E2 _]]]]. destruct (L1 j' s H2) as [_ [e' [E1' [E2' _]]]]. congruence.
 Qed.
 
@@ -178,7 +178,7 @@ Lemma live_slot_sched s e : n_store n s = Some e -> se_started e = true ->
     t <= wake_z (b_next (B (se_key e)) (se_inst e)) /\
     e_next se2 = (if any_mod (c_args n c (se_key e)) then t else wake_z (b_next (B (se_key e)) (se_inst e))).
 Proof.
-  intros He Hs. destruct HL as [HG [Hdone [L1 [L2 [L3 [L4 L5]]]]]].
+  intros He Hs. destruct HL as [HG [L1 [L2 [L3 [L4 L5]]]]].
   pose proof (L2 s e He Hs) as Hslot. destruct (L1 _ _ Hslot) as [Hin _].
   split; [exact Hin|]. split; [exact Hslot|].
   destruct (L3 s e He Hs) as [se [S1 [S2 [S3 S4]]]].
@@ -240,7 +240,7 @@ Qed.
 Lemma sch2_started_store k se2 : s_ent (c_sch2 keys n c) k = Some se2 -> e_started se2 = true ->
   exists e, n_store n k = Some e /\ se_started e = true.
 Proof.
-  intros H2 Hs. destruct HL as [_ [_ [_ [_ [_ [L4 _]]]]]].
+  intros H2 Hs. destruct HL as [_ [_ [_ [_ [L4 _]]]]].
   destruct sch2_facts as [_ [_ [_ F]]]. specialize (F k).
   destruct (s_ent (n_sch n) k) as [se|] eqn:E; [|congruence].
   destruct F as [se2' [F1 [F2 _]]]. rewrite H2 in F1. inversion F1. subst se2'. apply (L4 k se E). congruence.
@@ -321,7 +321,7 @@ Qed.
 Lemma key_refines j : In j keys ->
   (nabs n' j, c_ev B keys n c x j) = key_step (B j) t (c_bc c) j (nabs n j) (ops_on j (c_ops c)).
 Proof.
-  intros Hin. destruct HL as [HG [Hdone [L1 [L2 [L3 [L4 L5]]]]]].
+  intros Hin. destruct HL as [HG [L1 [L2 [L3 [L4 L5]]]]].
   pose proof inset_continuing as Hic. pose proof inset_created as Hicr. unfold t in *.
   unfold nabs at 1. cbn [node_cycle n_vals n_slot n_store]. unfold c_slot', c_ev.
   destruct (n_slot n j) as [s|] eqn:Ej.
@@ -381,11 +381,11 @@ Qed.
 
 Lemma link_cycle : Link n'.
 Proof.
-  pose proof HL as HL0. destruct HL0 as [HG [Hdone [L1 [L2 [L3 [L4 L5]]]]]].
+  pose proof HL as HL0. destruct HL0 as [HG [L1 [L2 [L3 [L4 L5]]]]].
   destruct sch2_facts as [HG2 [Hnow2 [Hd2 _]]].
   destruct Hok as [_ [HtM _]].
   unfold Link. cbn [node_cycle n_sch n_store n_slot n_vals].
-  split; [apply good_eval; exact HG2|]. split; [exact sch3_done|].
+  split; [apply good_eval; exact HG2|].
   split; [|split; [|split; [|split]]].
   - (* key -> slot *)
     intros j s Hs. unfold c_slot' in Hs. destruct (n_slot n j) as [s1|] eqn:Ej.
@@ -476,6 +476,73 @@ Proof.
   split; apply map_ext_in; intros j Hj; pose proof (key_refines j Hj) as R; unfold t in R; rewrite <- R; reflexivity.
 Qed.
 
+(* ---- a cycle that passes the node by ---- *)
+Lemma nabs_kinv j : In j keys -> kinv (nabs n j).
+Proof.
+  intros Hin. destruct HL as [_ [L1 [_ [_ [_ L5]]]]]. specialize (L5 j Hin). unfold nabs, kinv.
+  destruct (n_slot n j) as [s|] eqn:Ej.
+  - destruct (L1 j s Ej) as [_ [e [E1 [_ E3]]]]. rewrite E1. unfold abs_entry. rewrite E3. cbn [k_inst k_vals k_valid is_some] in *.
+    split; [exact L5|auto].
+  - unfold abs_entry. cbn [k_inst k_vals k_valid is_some] in *. split; [exact L5|discriminate].
+Qed.
+
+Lemma idle_key j : In j keys -> c_required keys n c = false ->
+  key_step (B j) (c_t c) (c_bc c) j (nabs n j) (ops_on j (c_ops c)) = (nabs n j, no_ev).
+Proof.
+  intros Hin Hreq. unfold c_required in Hreq. apply orb_false_iff in Hreq. destruct Hreq as [Hreq Hbc].
+  apply orb_false_iff in Hreq. destruct Hreq as [Hps Hops].
+  assert (Hnil : c_ops c = []) by (destruct (c_ops c); [reflexivity|discriminate]).
+  rewrite Hnil. change (ops_on j []) with (@nil kop).
+  apply untouched_cycle_identity; [apply nabs_kinv; exact Hin|exact Hbc|].
+  unfold nabs. destruct (n_slot n j) as [s|] eqn:Ej; [|exact I].
+  destruct HL as [HG [L1 [_ [L3 _]]]]. destruct (L1 j s Ej) as [_ [e [E1 [E2 E3]]]]. rewrite E1. unfold abs_entry. rewrite E3.
+  cbn [k_inst]. subst j. rewrite (wake_z_due _ _ (c_t c) t_lt).
+  destruct (L3 s e E1 E3) as [se [S1 [S2 [S3 S4]]]]. rewrite <- S3.
+  (* no pushes happened, so the parent's slot after the tick is the one before; it is not t, and it bounds e_next *)
+  assert (Hpushed : c_pushed keys n c = []).
+  { unfold c_pushed. assert (Hall : forall j', any_mod (c_args n c j') = false).
+    { intros j'. unfold c_args, c_nv. rewrite Hnil. change (ops_on j' []) with (@nil kop). rewrite new_vals_nil.
+      assert (Hz : forall l : list (option Z),
+                 existsb (fun p : option Z * bool => is_some (fst p) && snd p) (map (fun v : option Z => (v, false)) l) = false).
+      { induction l as [|v r IH]; [reflexivity|]. cbn [map existsb fst snd]. rewrite IH, andb_false_r. reflexivity. }
+      unfold any_mod in *. rewrite existsb_app, Hbc, orb_false_r. apply Hz. }
+    assert (Hfm : forall l : list Z,
+               flat_map (fun j0 => match n_slot n j0 with
+                                   | Some s1 => if any_mod (c_args n c j0) then [s1] else []
+                                   | None => [] end) l = []).
+    { induction l as [|k r IH]; [reflexivity|]. cbn [flat_map]. rewrite IH. destruct (n_slot n k); [rewrite Hall|]; reflexivity. }
+    apply Hfm. }
+  unfold c_sch2 in Hps. rewrite Hpushed in Hps. cbn [fold_left] in Hps.
+  destruct Hok as [Htick _]. unfold do_tick in Hps. rewrite Htick in Hps. cbn [s_pslot] in Hps.
+  apply Z.leb_gt.
+  destruct (Z_lt_le_dec (e_next se) MAX_DT) as [Hlt|Hge]; [|pose proof t_lt; lia].
+  destruct HG as [HI _]. destruct (HI s se S1 S2 Hlt) as [_ [[P [HP1 HP2]] _]].
+  unfold tick_ok in Htick. rewrite HP1 in Htick.
+  assert (P = s_pslot (n_sch n)). { unfold pend in HP1. destruct (_ || _); inversion HP1; reflexivity. }
+  lia.
+Qed.
+
+Lemma link_idle : Link (node_idle keys n c).
+Proof.
+  destruct HL as [HG [L1 [L2 [L3 [L4 L5]]]]]. destruct Hok as [Htick _].
+  assert (He : s_ent (do_tick (c_t c) (n_sch n)) = s_ent (n_sch n)) by (unfold do_tick; rewrite Htick; reflexivity).
+  unfold Link, node_idle. cbn [n_sch n_store n_slot n_vals]. rewrite He.
+  split; [apply good_tick; exact HG|]. auto.
+Qed.
+
+Lemma idle_refines : c_required keys n c = false ->
+  spec_state (node_idle keys n c) = next_state (cycle B (c_t c) (c_bc c) (c_ops c) (spec_state n)) /\
+  map (fun j => (j, no_ev)) keys = events (cycle B (c_t c) (c_bc c) (c_ops c) (spec_state n)) /\
+  has_set (c_ops c) = false.
+Proof.
+  intros Hreq. unfold spec_state, cycle, next_state, events. rewrite !map_map. cbn [fst snd].
+  split; [|split].
+  - apply map_ext_in. intros j Hj. rewrite (idle_key j Hj Hreq). reflexivity.
+  - apply map_ext_in. intros j Hj. rewrite (idle_key j Hj Hreq). reflexivity.
+  - unfold c_required in Hreq. apply orb_false_iff in Hreq. destruct Hreq as [Hreq _]. apply orb_false_iff in Hreq.
+    destruct Hreq as [_ Hops]. destruct (c_ops c); [reflexivity|discriminate].
+Qed.
+
 End OneCycle.
 
 (* ---- the whole run ---- *)
@@ -486,20 +553,26 @@ Lemma rel_init ndict : Rel (ninit ndict) (start_state ndict keys).
 Proof.
   split; [|split; [|split]]; try reflexivity.
   unfold Link, ninit. cbn [n_sch n_store n_slot n_vals].
-  split; [exact good_init|]. split; [reflexivity|].
+  split; [exact good_init|].
   split; [intros j s H; discriminate H|]. split; [intros s e H; discriminate H|].
   split; [intros s e H; discriminate H|]. split; [intros s se H; discriminate H|].
   intros j _. cbn [is_some]. unfold bound_somewhere. induction ndict; cbn; auto.
 Qed.
 
 Lemma rel_cycle m r cx : Rel m r -> step_ok keys m (fst cx) (snd cx) ->
-  Rel (node_cycle B keys m (fst cx) (snd cx)) (run_cycle B r (fst cx)).
+  Rel (node_step B keys m (fst cx) (snd cx)) (run_cycle B r (fst cx)).
 Proof.
-  intros [HLk [Hst [Hpr Hlog]]] Hok'. destruct cx as [c x]. cbn [fst snd] in *.
-  destruct (cycle_refines m c x HLk Hok') as [C1 C2].
-  split; [apply link_cycle; assumption|].
-  unfold run_cycle. cbn [r_st r_primed r_log node_cycle n_primed n_log]. rewrite Hst, Hpr, Hlog, <- C1, <- C2.
-  split; [reflexivity|]. split; reflexivity.
+  intros [HLk [Hst [Hpr Hlog]]] Hok'. destruct cx as [c x]. cbn [fst snd] in *. unfold node_step.
+  destruct (x_force x || c_required keys m c) eqn:Ereq.
+  - destruct (cycle_refines m c x HLk Hok') as [C1 C2].
+    split; [apply link_cycle; assumption|].
+    unfold run_cycle. cbn [r_st r_primed r_log node_cycle n_primed n_log]. rewrite Hst, Hpr, Hlog, <- C1, <- C2.
+    split; [reflexivity|]. split; reflexivity.
+  - apply orb_false_iff in Ereq. destruct Ereq as [_ Ereq].
+    destruct (idle_refines m c x HLk Hok' Ereq) as [C1 [C2 C3]].
+    split; [apply (link_idle m c x HLk Hok')|].
+    unfold run_cycle. cbn [r_st r_primed r_log node_idle n_primed n_log]. rewrite Hst, Hpr, Hlog, <- C1, <- C2, C3.
+    rewrite andb_false_r, orb_false_r. split; [reflexivity|]. split; reflexivity.
 Qed.
 
 Lemma rel_run : forall h m r, Rel m r -> run_ok B keys m h ->
